@@ -71,7 +71,7 @@ func (G *gen) fuzz(fx *fixture, nMsg, nObj int) {
 	r, n, w := G.r, fx.n, fx.w
 	head := n.Chain.Head.Height()
 	prop := fx.ownProposal()
-	if prop == nil {
+	if !usableProposal(prop) {
 		return
 	}
 	txs := hostileTxSample(fx, r, 6)
